@@ -6,8 +6,8 @@
 set -u
 WT="$1"; PATCH="$(realpath "$2")"; SR="$3"; shift 3
 mkdir -p "$SR/evidence"
-rsync -a --delete --exclude 'target*' --exclude 'fuzz/target' --exclude 'fuzz/corpus' --exclude 'fuzz/artifacts' /verif/harness/ "$SR/harness/"
-cp /verif/check /verif/known_findings.json "$SR/"
+# the committed state of /verif (never a half-edited working tree)
+git -C /verif archive HEAD harness check known_findings.json | tar -x -C "$SR"
 sed -i "s|path = \"/repo\"|path = \"$WT\"|" "$SR/harness/Cargo.toml"
 git -C "$WT" checkout -q -- . 2>/dev/null
 if ! git -C "$WT" apply "$PATCH"; then echo "$(basename "$(dirname "$PATCH")") does-not-apply"; exit 2; fi
